@@ -244,7 +244,9 @@ static void do_misc(vf_case *c) {
 			rpt_clear(&A); rpt_clear(&B2); }
 	}
 	VF_TRY(th, ep_mul_cof(r, p));
-	if (th) vf_fail(NULL, "ep_mul_cof raised %d", th); else { rpt_mul(&RC, &E, &P, RH); expect_pt("ep_mul_cof", r, &E, 0, NULL); rpt A; rpt_init(&A); ep_extract(&A, r); rpt_mul(&RC, &A, &A, RN); if (!A.inf) vf_fail(NULL, "ep_mul_cof: image not in the order-r subgroup"); rpt_clear(&A); }
+	if (th) vf_fail(NULL, "ep_mul_cof raised %d", th); else { /* on the BLS12 families the library clears the cofactor with the effective cofactor 1 - x (as the hash-to-curve standard does), elsewhere with h */
+		if (ep_curve_is_pairf() == EP_B12) { bn_t x; bn_new(x); fp_prime_get_par(x); mpz_t k; mpz_init(k); vf_bn_get(k, x); mpz_ui_sub(k, 1, k); rpt_mul(&RC, &E, &P, k); mpz_clear(k); bn_free(x); } else rpt_mul(&RC, &E, &P, RH);
+		expect_pt("ep_mul_cof", r, &E, 0, NULL); rpt A; rpt_init(&A); ep_extract(&A, r); rpt_mul(&RC, &A, &A, RN); if (!A.inf) vf_fail(NULL, "ep_mul_cof: image not in the order-r subgroup"); rpt_clear(&A); }
 	rpt_clear(&P); rpt_clear(&E);
 }
 
